@@ -33,7 +33,7 @@ ASSUMPTIONS = (
     'client: the response to a request cannot be processed by _keep_receiving before _keep_sending resumes from `await write_record` (asyncio resumes the drain waiter no later than the final send; DESIGN 2.8)',
     'handlers are uninterpreted async functions of (path, data); request ids (id(fut)) are unique among requests in flight because `active`/the pending queue hold the futures',
 )
-NOT_DECIDED = ('the OS socket layer, partial reads (inside the trusted StreamReader contract)', 'SocketClient.__enter__/__exit__ connection management', 'named-pipe transport beyond the constructor wiring: object delivery is the trusted multiprocessing.Connection')
+NOT_DECIDED = ('the OS socket layer, partial reads (inside the trusted StreamReader contract)', 'SocketClient.__enter__/__exit__ connection management', 'named-pipe transport: object delivery itself is the trusted multiprocessing.Connection over a FIFO (wiring and delegation are proved)')
 
 
 class WriteRecord(Unit):
@@ -904,6 +904,144 @@ class StreamConsume(Unit):
                 ex.oblige(s, 'exit(raise): only element #k\'s own error (exceptions not returned) after outputs 0..k-1, or the feeder\'s failure after EVERY element it had delivered was answered', z3.Or(own, feeder))
 
 
+# ================================================================ named-pipe transport: _Pipe
+class PipeBase(Unit):
+    prop = 'C18'
+    file = FP
+
+    def base(self, ex):
+        st = St()
+        st.ghost['ev'] = ()
+        self.rp, self.wp = z3.Const('abs_rpath', Val), z3.Const('abs_wpath', Val)
+
+        def conn_ctor(e, s, a, k, n):
+            s = s.fork()
+            c = Rec(e, 'Connection', methods={m: Fn(self.conn_method(m)) for m in ('send', 'recv', 'send_bytes', 'recv_bytes', 'recv_bytes_into')})
+            s.ghost['ev'] = s.ghost['ev'] + (('Connection', box(e, a[0]), {kk: box(e, v) for kk, v in k.items()}, c),)
+            return [('ok', s, c)]
+        ex.globals['multiprocessing.connection.Connection'] = Fn(conn_ctor)
+
+        def os_open(e, s, a, k, n):
+            s = s.fork()
+            h = fresh('fd')
+            s.ghost['ev'] = s.ghost['ev'] + (('open', box(e, a[0]), h),)
+            return [('ok', s, h)]
+        ex.globals['os.open'] = Fn(os_open)
+        for nm in ('O_SYNC', 'O_CREAT', 'O_RDWR', 'O_RDONLY'):
+            ex.globals['os.' + nm] = z3.Const('os.' + nm, Val)
+        return st
+
+    def conn_method(self, m):
+        def f(e, s, a, k, n):
+            s = s.fork()
+            s.ghost['ev'] = s.ghost['ev'] + ((m, [box(e, x) for x in a], {kk: box(e, v) for kk, v in k.items()}),)
+            return [('ok', s, z3.Function('conn_' + m + '_result', Val, Val)(z3.Const('conn_state', Val)))]
+        return f
+
+    def on_binop(self, ex, st, op, a, b, node):
+        return [('ok', st, z3.Function('flags_or', Val, Val, Val)(box(ex, a), box(ex, b)))]
+
+
+class PipeCtor(PipeBase):
+    """_Pipe.__init__(rpath, wpath): both FIFOs exist afterwards; the WRITE end is opened at once on wpath (does not block), the read end is left for the
+    first recv (opening a FIFO for reading blocks until the peer has opened it for writing)."""
+    qual = '_Pipe.__init__'
+    canaries = (('writer opened on the read path', 'hw = os.open(self._wpath,', 'hw = os.open(self._rpath,', ''),
+                ('only one FIFO created', '        _mkfifo(self._wpath)\n', '', ''))
+
+    def setup(self, ex):
+        st = self.base(ex)
+        self.me = Rec(ex, 'self')
+        self.rpath, self.wpath = z3.Const('rpath', Val), z3.Const('wpath', Val)
+        st.env.update(self=self.me, rpath=self.rpath, wpath=self.wpath)
+        absp = z3.Function('abspath', Val, Val)
+        self.absp = absp
+        ex.globals['os.path.abspath'] = Fn(lambda e, s, a, k, n: [('ok', s, absp(box(e, a[0])))])
+        ex.globals['_mkfifo'] = Fn(lambda e, s, a, k, n: (lambda s2: (s2.ghost.__setitem__('ev', s2.ghost['ev'] + (('mkfifo', box(e, a[0])),)), [('ok', s2, NONE)])[1])(s.fork()))
+        return st
+
+    def post(self, ex, outs):
+        for k, s, p in outs:
+            evs = s.ghost['ev']
+            mk = [x for x in evs if x[0] == 'mkfifo']
+            op = [x for x in evs if x[0] == 'open']
+            cn = [x for x in evs if x[0] == 'Connection']
+            ok = k in ('normal', 'return') and len(mk) == 2 and len(op) == 1 and len(cn) == 1
+            ex.oblige(s, 'exit: both FIFOs are made (absolute paths of rpath and wpath); exactly one descriptor is opened, on wpath, and wrapped as the write-only Connection stored as the writer; no reader yet',
+                      z3.And(z3.Or(z3.And(mk[0][1] == self.absp(self.rpath), mk[1][1] == self.absp(self.wpath)), z3.And(mk[1][1] == self.absp(self.rpath), mk[0][1] == self.absp(self.wpath))),
+                             op[0][1] == self.absp(self.wpath), cn[0][1] == op[0][2], cn[0][2].get('readable', NONE) == V.boolv(z3.BoolVal(False)),
+                             z3.BoolVal(unbox_handle(ex, self.me.get(s, '_writer')) is cn[0][3]), box(ex, self.me.get(s, '_reader')) == NONE,
+                             box(ex, self.me.get(s, '_rpath')) == self.absp(self.rpath), box(ex, self.me.get(s, '_wpath')) == self.absp(self.wpath)) if ok else z3.BoolVal(False))
+
+
+class PipeGetReader(PipeBase):
+    """_Pipe._get_reader: opens the read FIFO once, read-only, on rpath, and returns the same Connection ever after."""
+    qual = '_Pipe._get_reader'
+    variant = 'first use'
+    have_reader = False
+    canaries = (('reader opened on the write path', 'hr = os.open(self._rpath, os.O_RDONLY)', 'hr = os.open(self._wpath, os.O_RDONLY)', ''),
+                ('a new connection on every call', '        if self._reader is None:', '        if True:', ''))
+
+    def setup(self, ex):
+        st = self.base(ex)
+        self.me = Rec(ex, 'self')
+        self.old = Rec(ex, 'existing_reader', immutable=True)
+        self.me.init(st, _rpath=self.rp, _wpath=self.wp, _reader=(self.old if self.have_reader else NONE))
+        st.env['self'] = self.me
+        return st
+
+    def post(self, ex, outs):
+        for k, s, p in outs:
+            evs = s.ghost['ev']
+            op = [x for x in evs if x[0] == 'open']
+            cn = [x for x in evs if x[0] == 'Connection']
+            if self.have_reader:
+                ex.oblige(s, 'exit: the existing reader is returned; nothing is opened', z3.BoolVal(k in ('normal', 'return') and not op and not cn and unbox_handle(ex, p) is self.old))
+            else:
+                ok = k in ('normal', 'return') and len(op) == 1 and len(cn) == 1
+                ex.oblige(s, 'exit: one descriptor opened on rpath, wrapped as the read-only Connection, stored and returned',
+                          z3.And(op[0][1] == self.rp, cn[0][1] == op[0][2], cn[0][2].get('writable', NONE) == V.boolv(z3.BoolVal(False)),
+                                 z3.BoolVal(unbox_handle(ex, p) is cn[0][3] and unbox_handle(ex, self.me.get(s, '_reader')) is cn[0][3])) if ok else z3.BoolVal(False))
+
+
+class PipeGetReaderAgain(PipeGetReader):
+    variant = 'later uses'
+    have_reader = True
+    canaries = ()
+
+
+def pipe_delegate(meth, target, via, params, kw=()):
+    """send/recv/...: exactly one call of the same-named Connection method on the writer / the reader, with the caller's own arguments; its result is returned"""
+    class U(PipeBase):
+        qual = f'_Pipe.{meth}'
+        canaries = ()
+
+        def setup(self, ex):
+            st = self.base(ex)
+            self.conn = Rec(ex, via, methods={m: Fn(self.conn_method(m)) for m in ('send', 'recv', 'send_bytes', 'recv_bytes', 'recv_bytes_into')})
+            self.P = {p_: z3.Const(p_, Val) for p_ in params + kw}
+            methods = {'_get_reader': Fn(lambda e, s, a, k, n: [('ok', s, self.conn)])} if via == 'reader' else {}
+            me = Rec(ex, 'self', immutable=True, methods=methods).init(st, **({'_writer': self.conn} if via == 'writer' else {}))
+            st.env.update(self=me, **self.P)
+            return st
+
+        def post(self, ex, outs):
+            for k, s, p in outs:
+                evs = [x for x in s.ghost['ev'] if x[0] in ('send', 'recv', 'send_bytes', 'recv_bytes', 'recv_bytes_into')]
+                ok = k in ('normal', 'return') and len(evs) == 1 and evs[0][0] == target
+                got = (evs[0][1] + [evs[0][2][kk] for kk in kw if kk in evs[0][2]]) if ok else []
+                want = [self.P[p_] for p_ in params + kw]
+                ex.oblige(s, f'exit: exactly one {via}.{target}(own arguments) and its result is returned',
+                          z3.And(z3.BoolVal(len(got) == len(want)), *[g == w for g, w in zip(got, want)], box(ex, p) == z3.Function('conn_' + target + '_result', Val, Val)(z3.Const('conn_state', Val)) if meth.startswith('recv') else z3.BoolVal(True)) if ok else z3.BoolVal(False))
+    U.__name__ = 'Pipe_' + meth
+    return U
+
+
+PIPE_UNITS = [PipeCtor, PipeGetReader, PipeGetReaderAgain, pipe_delegate('send', 'send', 'writer', ('obj',)), pipe_delegate('recv', 'recv', 'reader', ()),
+              pipe_delegate('send_bytes', 'send_bytes', 'writer', ('buf',), ('offset', 'size')), pipe_delegate('recv_bytes', 'recv_bytes', 'reader', ('maxlength',)),
+              pipe_delegate('recv_bytes_into', 'recv_bytes_into', 'reader', ('buf', 'offset'))]
+
+
 class PipeInit(Unit):
     prop = 'C18'
     file = FP
@@ -942,7 +1080,7 @@ class PipeClientInit(PipeInit):
     canaries = ()
 
 
-UNITS = [WriteRecord, ReadRecord, FramingLemma, ServerReceiving, ServerResponding, ClientReceiving, ClientSending, ClientEnqueue, ClientRequest, PutInQueue, StreamFeed, StreamConsume, PipeInit, PipeClientInit]
+UNITS = [WriteRecord, ReadRecord, FramingLemma, ServerReceiving, ServerResponding, ClientReceiving, ClientSending, ClientEnqueue, ClientRequest, PutInQueue, StreamFeed, StreamConsume] + PIPE_UNITS + [PipeInit, PipeClientInit]
 SCENARIOS = [('SocketClient.stream', 'replay/scenarios/c18_stream_poll_race.py'), ('', 'replay/scenarios/c18_transports.py')]
 BOUNDED = [{'function': 'OS byte stream, asyncio task scheduling, multiprocessing.Connection over FIFOs', 'method': 'runtime scenario replay/scenarios/c18_transports.py', 'bound': '19 payload shapes up to 3 MiB, 120 concurrent requesters on 2 connections, 40 x 200 KB back-to-back, 3 timeout/id-reuse rounds, 200 pipe round trips', 'counted_as_proved': False}]
 THOROUGH_SCENARIOS = [('', 'replay/scenarios/c18_transports.py', (1,), 400), ('', 'replay/scenarios/c18_transports.py', (7,), 400)]
